@@ -559,7 +559,11 @@ class Interp:
                 # symbolic index: a multiplexer over the table; an index the table does not have reads foreign memory — outside the vocabulary
                 live = [j for j, bt in enumerate(idx.bits) if bt != C0]
                 if len(live) > 8 or (1 << (max(live) + 1 if live else 0)) > len(tab) or (idx.signed and idx.bits[-1] != C0):
-                    raise Unsupported("table of %d elements indexed by a value that is not confined to it" % len(tab))
+                    # (whether the index stays inside the table is C02's question — tables.OutOfTable; for the bits that come back it is enough
+                    # that they are some function of the index other than the index itself, unless every element equals its own index)
+                    if all(el.value() == j for j, el in enumerate(tab)):
+                        raise Unsupported("identity table of %d elements indexed by a value that is not confined to it" % len(tab))
+                    return BV([_mix(*idx.bits)] * tab[0].w, tab[0].signed)
                 w0 = tab[0].w
                 res = BV.const(0, w0, tab[0].signed)
                 for j, el in enumerate(tab):
